@@ -463,6 +463,12 @@ func (w *World) ClassifyString(e ast.Expr, recv types.Object, locals map[types.O
 		w.Die(e.Pos(), "expression written into the hash data is not a string: %s", w.Src(e))
 	}
 	field := func(x ast.Expr, kinds ...string) []string {
+		// a widening integer conversion (int64(b.F), uint64(t.V)) renders the same decimal text
+		if inner, ok := w.conversionArg(x, "int"); ok && Kind(w.TypeOf(inner)) == "int" {
+			if b, ok := w.TypeOf(x).Underlying().(*types.Basic); ok && (b.Kind() == types.Int64 || b.Kind() == types.Int) {
+				x = inner
+			}
+		}
 		// a field of the receiver, directly or through a getter method
 		if c, ok := x.(*ast.CallExpr); ok && len(c.Args) == 0 {
 			if sel, ok := c.Fun.(*ast.SelectorExpr); ok {
